@@ -18,7 +18,7 @@ Histories == [1..Depth -> Status]
 
 (* C04: N pipelined loads, a fault of some kind at some request kind (index only for loads) *)
 Kinds == {"open", "get-running", "get-candidate", "load", "commit", "close-db", "close-session"}
-FaultKinds == {"rpc-error", "malformed", "wrong-id", "close-before", "close-after", "no-ok"}
+FaultKinds == {"rpc-error", "malformed", "wrong-id", "close-before", "close-after", "no-ok", "junos-error"}
 FaultCases ==
   {[n |-> n, target |-> "none", index |-> 0, kind |-> "none"] : n \in 0..3}
   \cup {[n |-> n, target |-> t, index |-> 0, kind |-> k] : n \in 0..3, t \in Kinds \ {"load"}, k \in FaultKinds}
@@ -26,10 +26,12 @@ FaultCases ==
 FaultOk(c) == /\ (c.target = "load" => c.index <= c.n)
               /\ (c.kind = "delayed-error" => c.index < c.n)        \* released by a later load
               /\ (c.kind = "no-ok" => c.target \in {"load", "commit", "close-session"})
+              /\ (c.kind = "junos-error" => c.target = "commit")     \* <commit-results> with the error inside <routing-engine>
 
 (* C03 / C15: evaluation outcome classes of a policy, and whether it is installed already *)
 EvalClass == {"ok", "unknown-as-set", "error-E", "error-F", "malformed-annotation", "peeras", "aspath-regex", "attr-match"}
-C03Cases == {[installed |-> i, class |-> c] : i \in BOOLEAN, c \in {"unknown-as-set", "error-E", "error-F", "malformed-annotation"}}
+C03Cases == {[installed |-> i, class |-> c] : i \in BOOLEAN, c \in {"unknown-as-set", "error-E", "error-F", "malformed-annotation",
+                                                                      "peeras", "aspath-regex", "attr-match"}}
 C15Cases == {q \in UNION {[1..k -> EvalClass \ {"malformed-annotation"}] : k \in 2..3} :
                (\E i \in 1..Len(q) : q[i] # "ok") /\ (\E i \in 1..Len(q) : q[i] = "ok")}
 
@@ -71,7 +73,8 @@ GarbleCases == PositionCases \cup {[target |-> t, index |-> IF t = "load" THEN i
 (* C02 "for all installed states": states in the ephemeral instance that the agent did not write itself *)
 ForeignShapes == {"extra-term-other-family", "extra-term-no-from", "term-named-differently", "term-without-family",
                   "two-terms-one-family", "no-trailing-reject", "no-trailing-reject-extra-filters", "term-without-then",
-                  "reject-only", "own-shape"}
+                  "reject-only", "own-shape",
+                  "exact-filter", "orlonger-filter", "upto-filter"}
 ForeignCases == {[shape |-> sh, target |-> t] : sh \in ForeignShapes, t \in {"same", "other", "empty", "unmarked"}}
 
 Out ==
